@@ -1275,7 +1275,23 @@ pub fn lfo_fine(r: &mut Rng, n: usize, out: &mut Vec<String>) {
     while left > 0 {
         let sr = r.pick(&[100.0f32, 1000.0, 1024.0, 12000.0, 16384.0, 44100.0, 48000.0, 65536.0, 96000.0, 192000.0]);
         out.push(format!("lfo new {}", b(sr)));
-        match r.below(8) {
+        match r.below(9) {
+            8 => {
+                // the phase loaded to exactly k steps of the current rate (k small), then a re-tune before any tick:
+                // the phase counter then equals a multiple of the increment, a coincidence ordinary phases never produce
+                let f = r.log_uniform(0.05, sr as f64 / 300.0) as f32;
+                out.push(format!("freq {}", b(f)));
+                let k = r.pick(&[1.0f32, 1.0, 2.0, 3.0]);
+                out.push(format!("phase {}", b(k * f / sr)));
+                if r.chance(1, 3) {
+                    out.push("tick".into());
+                }
+                out.push(format!("freq {}", lfo_freq_in(r, sr)));
+                for _ in 0..r.range(1, 6) {
+                    out.push("tick".into());
+                }
+                left -= 10;
+            }
             0 => {
                 // a frequency, then nearly the same frequency
                 let f = r.log_uniform(0.01, 50.0) as f32;
